@@ -1,11 +1,722 @@
-(* Proofs about the EVQE operator models (C10, C11). *)
-From QV Require Import Evqe.Heap.
-From Coq Require Import Permutation.
+(* Proofs about the EVQE operator models: executor alignment, selection, mutation contracts, closure of
+   validity under every operator and under operator sequences (C10). *)
+From QV Require Import Evqe.Heap Evqe.Speciation_proofs.
+From Coq Require Import Permutation Sorting.Sorted.
 Open Scope Z_scope.
 
+(* ------------------------------------------------------------------ small facts *)
 Lemma set_nth_length {A} (l : list A) i x l' : set_nth l i x = Ok l' -> length l' = length l.
 Proof.
   revert i l'. induction l as [|h t IH]; intros [|i] l' H; simpl in H; try discriminate.
   - inversion H; reflexivity.
   - destruct (set_nth t i x) eqn:E; simpl in H; [|discriminate]. inversion H; subst; simpl. f_equal. eapply IH; eauto.
+Qed.
+
+Lemma set_nth_Forall {A} (P : A -> Prop) (l : list A) i x l' :
+  set_nth l i x = Ok l' -> Forall P l -> P x -> Forall P l'.
+Proof.
+  revert i l'. induction l as [|h t IH]; intros [|i] l' H Hl Hx; simpl in H; try discriminate.
+  - inversion H; subst. inversion Hl; subst. constructor; assumption.
+  - destruct (set_nth t i x) eqn:E; simpl in H; [|discriminate]. inversion H; subst. inversion Hl; subst.
+    constructor; [assumption|]. eapply IH; eauto.
+Qed.
+
+Lemma set_nth_Forall2 {A} (R : A -> A -> Prop) (orig cur : list A) i x x' cur' :
+  Forall2 R orig cur -> nth_error orig i = Some x -> R x x' -> set_nth cur i x' = Ok cur' -> Forall2 R orig cur'.
+Proof.
+  intros HF. revert i cur'. induction HF as [|o c os cs Hoc HF IH]; intros [|i] cur' Hn HR H; simpl in *; try discriminate.
+  - inversion Hn; subst. inversion H; subst. constructor; assumption.
+  - destruct (set_nth cs i x') eqn:E; simpl in H; [|discriminate]. inversion H; subst. constructor; [assumption|]. eapply IH; eauto.
+Qed.
+
+Lemma mapM_Forall2 {A B} (f : A -> result B) l r : mapM f l = Ok r <-> Forall2 (fun a b => f a = Ok b) l r.
+Proof.
+  revert r. induction l as [|a t IH]; intros r; simpl.
+  - split; [intros H; inversion H; constructor|intros H; inversion H; reflexivity].
+  - split.
+    + destruct (f a) eqn:E; simpl; [|discriminate]. destruct (mapM f t) eqn:E2; simpl; [|discriminate].
+      intros H; inversion H; subst. constructor; [exact E|]. apply IH. reflexivity.
+    + intros H; inversion H; subst. rewrite H2. simpl. apply IH in H4. rewrite H4. reflexivity.
+Qed.
+
+Lemma gather_map {A B} (f : A -> result B) l : gather (map f l) = mapM f l.
+Proof. unfold gather. induction l as [|a t IH]; simpl; [reflexivity|]. rewrite IH. reflexivity. Qed.
+
+Lemma Forall2_length' {A B} (R : A -> B -> Prop) l r : Forall2 R l r -> length l = length r.
+Proof. induction 1; simpl; congruence. Qed.
+
+Lemma nth_r_In {A} (l : list A) i x : nth_r l i = Ok x -> In x l.
+Proof. unfold nth_r. destruct (nth_error l i) eqn:E; intros H; inversion H; subst. eapply nth_error_In; eauto. Qed.
+
+Lemma nth_r_nth {A} (l : list A) i x : nth_r l i = Ok x <-> nth_error l i = Some x.
+Proof. unfold nth_r. destruct (nth_error l i); split; intros H; inversion H; reflexivity. Qed.
+
+(* ------------------------------------------------------------------ the executor: collection by index is aligned *)
+Section ExecFacts.
+  Context {R : Type}.
+
+  Lemma complete_log (tasks : list R) pi log :
+    complete tasks pi = Ok log -> map fst log = pi /\ (forall j r, In (j, r) log -> nth_error tasks j = Some r).
+  Proof.
+    revert log. induction pi as [|j t IH]; intros log; simpl.
+    - intros H; inversion H; subst. split; [reflexivity|intros ? ? []].
+    - destruct (nth_error tasks j) as [r|] eqn:E; [|discriminate].
+      destruct (complete tasks t) as [rest|] eqn:E2; simpl; [|discriminate].
+      intros H; inversion H; subst. destruct (IH rest eq_refl) as [A1 A2]. split; [simpl; f_equal; exact A1|].
+      intros j0 r0 [X|X]; [inversion X; subst; exact E|eauto].
+  Qed.
+
+  Lemma complete_ok (tasks : list R) pi :
+    (forall j, In j pi -> (j < length tasks)%nat) -> exists log, complete tasks pi = Ok log.
+  Proof.
+    induction pi as [|j t IH]; intros H; simpl; [eexists; reflexivity|].
+    destruct (nth_error tasks j) as [r|] eqn:E.
+    - destruct IH as [log El]; [intros; apply H; right; assumption|]. rewrite El. simpl. eexists; reflexivity.
+    - apply nth_error_None in E. specialize (H j (or_introl eq_refl)). lia.
+  Qed.
+
+  Lemma log_get (tasks : list R) (log : list (nat * R)) i :
+    (forall j r, In (j, r) log -> nth_error tasks j = Some r) ->
+    match dict_get Nat.eqb log i with
+    | Some r => nth_error tasks i = Some r
+    | None => ~ In i (map fst log)
+    end.
+  Proof.
+    induction log as [|[j r] t IH]; intros H; simpl; [intros []|].
+    destruct (Nat.eqb i j) eqn:E.
+    - apply Nat.eqb_eq in E; subst. apply H. left; reflexivity.
+    - specialize (IH (fun j0 r0 X => H j0 r0 (or_intror X))). destruct (dict_get Nat.eqb t i); [exact IH|].
+      intros [X|X]; [simpl in X; subst; rewrite Nat.eqb_refl in E; discriminate|contradiction].
+  Qed.
+
+  Lemma seq_nth_Forall2 (pre tasks : list R) :
+    Forall2 (fun i r => nth_error (pre ++ tasks) i = Some r) (seq (length pre) (length tasks)) tasks.
+  Proof.
+    revert pre. induction tasks as [|r t IH]; intros pre; simpl; [constructor|]. constructor.
+    - rewrite nth_error_app2, Nat.sub_diag; [reflexivity|lia].
+    - specialize (IH (pre ++ [r])). rewrite app_length in IH. simpl in IH. rewrite Nat.add_1_r, <- app_assoc in IH. exact IH.
+  Qed.
+
+  Lemma collect_aligned (full : list R) (log : list (nat * R)) :
+    (forall j r, In (j, r) log -> nth_error full j = Some r) ->
+    forall l done ts,
+      Forall2 (fun a b => match dict_get Nat.eqb log a with Some r => Ok r | None => Err NeverCompleted end = Ok b) l done ->
+      Forall2 (fun i r => nth_error full i = Some r) l ts -> done = ts.
+  Proof.
+    intros Hlog. induction l as [|i l IH]; intros done ts H G; inversion H; subst; inversion G; subst; [reflexivity|].
+    f_equal; [|apply IH; assumption].
+    pose proof (log_get full log i Hlog) as X. destruct (dict_get Nat.eqb log i); [|discriminate].
+    inversion H2; subst. congruence.
+  Qed.
+
+  (* whatever the completion order: if the run completes, position i holds the outcome of task i *)
+  Theorem exec_run_aligned (tasks : list R) pi done : exec_run tasks pi = Ok done -> done = tasks.
+  Proof.
+    unfold exec_run. destruct (complete tasks pi) as [log|] eqn:E; simpl; [|discriminate].
+    destruct (complete_log _ _ _ E) as [_ Hlog]. unfold collect. intros H. apply mapM_Forall2 in H.
+    pose proof (seq_nth_Forall2 [] tasks) as G. simpl in G.
+    eapply collect_aligned; eauto.
+  Qed.
+
+  (* and for every permutation of the submitted tasks the run does complete *)
+  Theorem exec_run_permutation (tasks : list R) pi :
+    Permutation pi (seq 0 (length tasks)) -> exec_run tasks pi = Ok tasks.
+  Proof.
+    intros HP.
+    assert (Hlt : forall j, In j pi -> (j < length tasks)%nat).
+    { intros j Hj. apply (Permutation_in _ HP) in Hj. apply in_seq in Hj. lia. }
+    destruct (complete_ok tasks pi Hlt) as [log E].
+    destruct (complete_log _ _ _ E) as [Hfst Hlog].
+    assert (X : exists done, exec_run tasks pi = Ok done).
+    { unfold exec_run. rewrite E. simpl. unfold collect.
+      assert (G : forall l, (forall i, In i l -> In i pi) -> exists done,
+                  mapM (fun i => match dict_get Nat.eqb log i with Some r => Ok r | None => Err NeverCompleted end) l = Ok done).
+      { induction l as [|i l IH]; intros Hin; simpl; [eexists; reflexivity|].
+        pose proof (log_get tasks log i Hlog) as Y. destruct (dict_get Nat.eqb log i).
+        - destruct IH as [d Ed]; [intros; apply Hin; right; assumption|]. rewrite Ed. simpl. eexists; reflexivity.
+        - exfalso. apply Y. rewrite Hfst. apply Hin. left; reflexivity. }
+      apply G. intros i Hi. apply (Permutation_in _ (Permutation_sym HP)). exact Hi. }
+    destruct X as [done Ed]. rewrite Ed. f_equal. eapply exec_run_aligned; eauto.
+  Qed.
+End ExecFacts.
+
+(* gathering in completion order is NOT aligned *)
+Lemma exec_run_as_completed_misaligned :
+  exists (tasks : list nat) pi, Permutation pi (seq 0 (length tasks)) /\ exec_run_as_completed tasks pi <> Ok tasks.
+Proof. exists [10; 20]%nat, [1; 0]%nat. split; [apply perm_swap|]. vm_compute. discriminate. Qed.
+
+(* ------------------------------------------------------------------ argmin = the first minimum *)
+Lemma Qltb_lt x y : Qltb x y = true <-> (x < y)%Q.
+Proof.
+  unfold Qltb. rewrite negb_true_iff. split.
+  - intros H. apply Qnot_le_lt. intros C. apply Qle_bool_iff in C. congruence.
+  - intros H. destruct (Qle_bool y x) eqn:E; [|reflexivity]. apply Qle_bool_iff in E. exfalso. eapply Qlt_not_le; eauto.
+Qed.
+
+Lemma Qltb_ge x y : Qltb x y = false <-> (y <= x)%Q.
+Proof.
+  unfold Qltb. rewrite negb_false_iff. apply Qle_bool_iff.
+Qed.
+
+Definition first_min (l : list Q) (bi : nat) : Prop :=
+  exists bv, nth_error l bi = Some bv
+             /\ (forall j v, nth_error l j = Some v -> (bv <= v)%Q)
+             /\ (forall j v, (j < bi)%nat -> nth_error l j = Some v -> (bv < v)%Q).
+
+Lemma argmin_from_spec (l : list Q) : forall (pre : list Q) best_i best,
+  nth_error pre best_i = Some best ->
+  (forall j v, nth_error pre j = Some v -> (best <= v)%Q) ->
+  (forall j v, (j < best_i)%nat -> nth_error pre j = Some v -> (best < v)%Q) ->
+  first_min (pre ++ l) (argmin_from best_i best (length pre) l).
+Proof.
+  induction l as [|x t IH]; intros pre bi best Hb Hle Hlt; simpl.
+  - rewrite app_nil_r. exists best. auto.
+  - replace (pre ++ x :: t) with ((pre ++ [x]) ++ t) by (rewrite <- app_assoc; reflexivity).
+    replace (S (length pre)) with (length (pre ++ [x])) by (rewrite app_length; simpl; lia).
+    destruct (Qltb x best) eqn:E.
+    + apply Qltb_lt in E. apply IH.
+      * rewrite nth_error_app2, Nat.sub_diag; [reflexivity|lia].
+      * intros j v Hj. destruct (Nat.lt_ge_cases j (length pre)) as [L|L].
+        -- rewrite nth_error_app1 in Hj by exact L. apply Qlt_le_weak. eapply Qlt_le_trans; [exact E|eauto].
+        -- rewrite nth_error_app2 in Hj by exact L. destruct (j - length pre)%nat as [|k]; simpl in Hj; [inversion Hj; apply Qle_refl|destruct k; discriminate].
+      * intros j v L Hj. rewrite nth_error_app1 in Hj by exact L. eapply Qlt_le_trans; [exact E|eauto].
+    + apply Qltb_ge in E. apply IH.
+      * rewrite nth_error_app1; [exact Hb|]. apply nth_error_Some. congruence.
+      * intros j v Hj. destruct (Nat.lt_ge_cases j (length pre)) as [L|L].
+        -- rewrite nth_error_app1 in Hj by exact L. eauto.
+        -- rewrite nth_error_app2 in Hj by exact L. destruct (j - length pre)%nat as [|k]; simpl in Hj; [inversion Hj; subst; exact E|destruct k; discriminate].
+      * intros j v L Hj. assert (L2 : (j < length pre)%nat).
+        { assert ((bi < length pre)%nat) by (apply nth_error_Some; congruence). lia. }
+        rewrite nth_error_app1 in Hj by exact L2. eauto.
+Qed.
+
+Lemma argmin_spec l bi : argmin l = Ok bi -> first_min l bi.
+Proof.
+  destruct l as [|x t]; simpl; [discriminate|]. intros H; inversion H; subst.
+  apply (argmin_from_spec t [x] 0%nat x).
+  - reflexivity.
+  - intros [|[|j]] v Hj; simpl in Hj; try discriminate. inversion Hj. apply Qle_refl.
+  - intros j v L. lia.
+Qed.
+
+(* ------------------------------------------------------------------ selection *)
+Section SelectionFacts.
+  Context {V : Type} (ieq : individual V -> individual V -> bool).
+  Notation ind := (individual V).
+  Variable ev : ind -> result Q.
+
+  (* the result does not depend on the completion order; values[i] is the evaluator's answer for individuals[i] *)
+  Theorem selection_alignment cfg (p : population V) pi s :
+    Permutation pi (seq 0 (length (p_inds p))) ->
+    selection_op ieq ev cfg p pi s =
+    match mapM ev (p_inds p) with
+    | Err e => ([], Err e)
+    | Ok values => select_after_eval ieq cfg p values s
+    end.
+  Proof.
+    intros HP. unfold selection_op. rewrite exec_run_permutation by (rewrite map_length; exact HP).
+    simpl. rewrite gather_map. reflexivity.
+  Qed.
+
+  (* for EVERY completion order: if selection completes, it used values[i] = ev individuals[i] *)
+  Lemma selection_values cfg (p : population V) pi s cbs r :
+    selection_op ieq ev cfg p pi s = (cbs, r) ->
+    (cbs = [] /\ exists e, r = Err e) \/
+    (exists values, Forall2 (fun x v => ev x = Ok v) (p_inds p) values /\ select_after_eval ieq cfg p values s = (cbs, r)).
+  Proof.
+    unfold selection_op. destruct (exec_run (map ev (p_inds p)) pi) as [done|e] eqn:E; simpl.
+    - apply exec_run_aligned in E. subst. rewrite gather_map. destruct (mapM ev (p_inds p)) as [values|e] eqn:E2.
+      + intros H. right. exists values. split; [apply mapM_Forall2; exact E2|exact H].
+      + intros H; inversion H; subst. left. eauto.
+    - intros H; inversion H; subst. left. eauto.
+  Qed.
+
+  Lemma tournaments_spec rounds : forall size (inds : list ind) fit s sel s',
+    tournaments rounds size inds fit s = Ok (sel, s') -> length sel = rounds /\ forall x, In x sel -> In x inds.
+  Proof.
+    induction rounds as [|r IH]; intros size inds fit s sel s'; simpl.
+    - intros H; inversion H; subst. split; [reflexivity|intros ? []].
+    - destruct (take_choices (length inds) None size s) as [[idxs s1]|] eqn:E1; simpl; [|discriminate].
+      destruct (tournament_winner fit idxs None) as [[[bi bf]|]|] eqn:E2; simpl; try discriminate.
+      destruct (nth_r inds bi) as [x|] eqn:E3; simpl; [|discriminate].
+      destruct (tournaments r size inds fit s1) as [[rest s2]|] eqn:E4; simpl; [|discriminate].
+      intros H; inversion H; subst. destruct (IH _ _ _ _ _ _ E4) as [A1 A2]. split; [simpl; congruence|].
+      intros y [<-|Hy]; [eapply nth_r_In; eauto|auto].
+  Qed.
+
+  Theorem selection_spec cfg (p : population V) values s cbs p' :
+    length values = length (p_inds p) ->
+    select_after_eval ieq cfg p values s = (cbs, Ok p') ->
+    (* one evaluation per individual is reported, then the result with the first minimum as best *)
+    (exists bi bx bv, cbs = [CbCount (Z.of_nat (length (p_inds p))); CbResult (mkRes p values bx bv)]
+                      /\ nth_error (p_inds p) bi = Some bx /\ nth_error values bi = Some bv /\ first_min values bi)
+    (* the new population: same size, only individuals of the input, the representatives handed on *)
+    /\ length (p_inds p') = length (p_inds p)
+    /\ (forall x, In x (p_inds p') -> In x (p_inds p))
+    /\ p_reps p' = p_reps p /\ p_reps p <> None /\ p_members p' = None /\ p_membership p' = None.
+  Proof.
+    intros Hlen. unfold select_after_eval.
+    destruct (p_reps p) as [reps|]; [|intros H; inversion H].
+    destruct (p_members p) as [mem|]; [|intros H; inversion H].
+    destruct (p_membership p) as [ms|]; [|intros H; inversion H].
+    destruct (argmin values) as [bi|] eqn:Ea; [|intros H; inversion H].
+    destruct (nth_r (p_inds p) bi) as [bx|] eqn:Ex; [|intros H; inversion H].
+    destruct (nth_r values bi) as [bv|] eqn:Ev; [|intros H; inversion H].
+    intros H. inversion H as [[Hc Hr]]. clear H. split.
+    { exists bi, bx, bv. repeat split; [apply nth_r_nth; exact Ex|apply nth_r_nth; exact Ev|apply argmin_spec; exact Ea]. }
+    destruct (s_tournament cfg) as [size|].
+    - destruct (fitness_all ieq cfg mem ms 0 0 (p_inds p) values) as [fit|]; simpl in Hr; [|discriminate].
+      destruct (tournaments (length (p_inds p)) size (p_inds p) fit s) as [[sel s1]|] eqn:Et; simpl in Hr; [|discriminate].
+      destruct s1; inversion Hr; subst; simpl. destruct (tournaments_spec _ _ _ _ _ _ _ Et) as [A1 A2].
+      repeat split; auto. discriminate.
+    - destruct (fitness_all ieq cfg mem ms _ 0 (p_inds p) values) as [fit|]; simpl in Hr; [|discriminate].
+      destruct (mapM _ fit) as [ws|]; simpl in Hr; [|discriminate].
+      destruct (Qle_bool (sumQ ws) 0); [discriminate|].
+      destruct (take_choices (length (p_inds p)) (Some ws) (length (p_inds p)) s) as [[idxs s1]|] eqn:Ec; simpl in Hr; [|discriminate].
+      destruct (mapM (nth_r (p_inds p)) idxs) as [sel|] eqn:Em; simpl in Hr; [|discriminate].
+      destruct s1; inversion Hr; subst; simpl. apply mapM_Forall2 in Em.
+      assert (Hl : length idxs = length (p_inds p)).
+      { unfold take_choices in Ec. destruct s as [|[]]; try discriminate.
+        destruct (_ && _ && _ && _)%bool eqn:B in Ec; [|discriminate]. inversion Ec; subst.
+        apply andb_true_iff in B as [B _]. apply andb_true_iff in B as [B _]. apply andb_true_iff in B as [_ B].
+        apply Nat.eqb_eq in B. exact B. }
+      repeat split; auto; try discriminate.
+      + rewrite <- (Forall2_length' _ _ _ Em). exact Hl.
+      + intros x Hx. clear - Em Hx. induction Em; [destruct Hx|]. destruct Hx as [<-|Hx]; [eapply nth_r_In; eauto|auto].
+  Qed.
+
+  (* the documented precondition: without species information selection raises (after the evaluations) *)
+  Theorem selection_needs_speciation cfg (p : population V) pi s :
+    p_reps p = None \/ p_members p = None \/ p_membership p = None ->
+    exists e, snd (selection_op ieq ev cfg p pi s) = Err e.
+  Proof.
+    intros Hn. unfold selection_op. destruct (do rs <- exec_run (map ev (p_inds p)) pi; gather rs); [|simpl; eauto].
+    unfold select_after_eval. destruct (p_reps p); [|simpl; eauto]. destruct (p_members p); [|simpl; eauto].
+    destruct (p_membership p); [|simpl; eauto]. destruct Hn as [H|[H|H]]; discriminate.
+  Qed.
+End SelectionFacts.
+
+(* ------------------------------------------------------------------ individuals built by the constructor are valid *)
+Lemma make_individual_spec {V} n ls (vs : list V) x :
+  make_individual n ls vs = Ok x -> individual_is_valid x = true /\ i_qubits x = n /\ i_layers x = ls /\ i_values x = vs.
+Proof.
+  unfold make_individual. destruct (individual_is_valid (mkInd n ls vs)) eqn:E; [|discriminate].
+  intros H; inversion H; subst. auto.
+Qed.
+
+(* ------------------------------------------------------------------ mutation contracts *)
+Section MutationFacts.
+  Context {V : Type} (veqb : V -> V -> bool) (zero : V).
+  Notation ind := (individual V).
+
+  (* what each kind of mutation may do to an individual *)
+  Definition keeps_structure (x x' : ind) : Prop := i_qubits x' = i_qubits x /\ i_layers x' = i_layers x.
+
+  Definition contract (k : mut_kind) (x x' : ind) : Prop :=
+    i_qubits x' = i_qubits x /\ individual_is_valid x' = true /\
+    match k with
+    | MLastLayer | MParamSearch => i_layers x' = i_layers x
+    | MTopological => exists l vs, i_layers x' = i_layers x ++ [l] /\ i_values x' = i_values x ++ vs
+    | MLayerRemoval =>
+        (length (i_layers x) = 1%nat /\ x' = x)
+        \/ (exists suffix vs, suffix <> [] /\ i_layers x' <> [] /\ i_layers x = i_layers x' ++ suffix /\ i_values x = i_values x' ++ vs)
+    end.
+
+  Lemma optimize_layer_keeps lg x lid s x' n s' :
+    individual_is_valid x = true ->
+    optimize_layer veqb lg x lid s = Ok (x', n, s') -> individual_is_valid x' = true /\ keeps_structure x x'.
+  Proof.
+    intros Hv. unfold optimize_layer.
+    destruct (Nat.eqb (length (i_layers x)) 0); [discriminate|].
+    destruct (Nat.eqb (length (get_layer_parameter_values x lid)) 0).
+    - destruct lg; [discriminate|]. intros H; inversion H; subst. repeat split; auto.
+    - destruct s as [|[| |x0 new nfev|] rest]; try discriminate.
+      destruct (list_eqb veqb x0 (get_layer_parameter_values x lid)); [|discriminate].
+      unfold change_layer_parameter_values.
+      destruct (negb _); simpl; [discriminate|].
+      destruct (make_individual _ _ _) as [y|] eqn:E; simpl; [|discriminate].
+      intros H; inversion H; subst. apply make_individual_spec in E as [A1 [A2 [A3 A4]]]. repeat split; auto.
+  Qed.
+
+  (* repaired variant: a layer without parameters is left alone (and costs nothing) *)
+  Lemma optimize_layer_empty x lid s :
+    i_layers x <> [] -> get_layer_parameter_values x lid = [] -> optimize_layer veqb false x lid s = Ok (x, 0, s).
+  Proof.
+    intros Hne He. unfold optimize_layer. destruct (i_layers x); [congruence|]. simpl. rewrite He. reflexivity.
+  Qed.
+
+  (* the last-layer search only replaces the slice of values that belongs to the layer *)
+  Lemma optimize_layer_values lg x lid s x' n s' :
+    optimize_layer veqb lg x lid s = Ok (x', n, s') ->
+    x' = x \/ exists new, let k := wrap_layer_id x lid in
+                          i_values x' = firstn (layer_offset (i_layers x) k) (i_values x) ++ new
+                                        ++ skipn (layer_offset (i_layers x) k + layer_count (i_layers x) k) (i_values x).
+  Proof.
+    unfold optimize_layer.
+    destruct (Nat.eqb (length (i_layers x)) 0); [discriminate|].
+    destruct (Nat.eqb (length (get_layer_parameter_values x lid)) 0).
+    - destruct lg; [discriminate|]. intros H; inversion H; subst. left; reflexivity.
+    - destruct s as [|[| |x0 new nfev|] rest]; try discriminate.
+      destruct (list_eqb veqb x0 (get_layer_parameter_values x lid)); [|discriminate].
+      unfold change_layer_parameter_values.
+      destruct (negb _); simpl; [discriminate|].
+      destruct (make_individual _ _ _) as [y|] eqn:E; simpl; [|discriminate].
+      intros H; inversion H; subst. apply make_individual_spec in E as [A1 [A2 [A3 A4]]]. right. exists new. exact A4.
+  Qed.
+
+  Lemma optimize_loop_keeps lg fuel : forall cur indices total s x' n s',
+    individual_is_valid cur = true ->
+    optimize_loop veqb lg fuel cur indices total s = Ok (x', n, s') -> individual_is_valid x' = true /\ keeps_structure cur x'.
+  Proof.
+    induction fuel as [|f IH]; intros cur indices total s x' n s' Hv; destruct indices as [|i0 it]; simpl;
+      try (intros H; inversion H; subst; repeat split; auto; fail); try discriminate.
+    destruct (t_draw _ s) as [[c s1]|] eqn:E1; simpl; [|discriminate].
+    destruct (nth_r (i0 :: it) c) as [layer|] eqn:E2; simpl; [|discriminate].
+    destruct (t_draw take_seed s1) as [[sd s2]|] eqn:E3; simpl; [|discriminate].
+    destruct (optimize_layer veqb lg cur (Z.of_nat layer) s2) as [[[y ny] s3]|] eqn:E4; simpl; [|discriminate].
+    intros H. destruct (optimize_layer_keeps _ _ _ _ _ _ _ Hv E4) as [Hy [K1 K2]].
+    destruct (IH _ _ _ _ _ _ _ Hy H) as [Hx' [K3 K4]]. repeat split; auto; congruence.
+  Qed.
+
+  Lemma run_task_contract lg k x seed s x' n s' :
+    individual_is_valid x = true ->
+    run_task veqb zero lg k x seed s = Ok (x', n, s') -> contract k x x'.
+  Proof.
+    intros Hv. destruct k; simpl.
+    - intros H. destruct (optimize_layer_keeps _ _ _ _ _ _ _ Hv H) as [A [B C]]. repeat split; auto.
+    - unfold optimize_all. destruct (t_take_seed seed s) as [s1|]; simpl; [|discriminate].
+      intros H. destruct (optimize_loop_keeps _ _ _ _ _ _ _ _ _ Hv H) as [A [B C]]. repeat split; auto.
+    - unfold topological_task. destruct (t_take_seed seed s) as [s1|]; simpl; [|discriminate].
+      destruct (i_layers x) as [|first rest] eqn:El; simpl; [discriminate|].
+      destruct (t_draw take_seed s1) as [[sd s2]|]; simpl; [|discriminate].
+      destruct s2 as [|[| | |l] rest2]; try discriminate.
+      destruct (layer_wf l && Z.eqb (l_qubits l) (l_qubits first))%bool; [|discriminate].
+      unfold add_layers. destruct (make_individual _ _ _) as [y|] eqn:E; simpl; [|discriminate].
+      intros H; inversion H; subst. apply make_individual_spec in E as [A1 [A2 [A3 A4]]].
+      repeat split; auto. exists l, (repeat zero (Z.to_nat (layer_n_parameters l))). rewrite A3, A4, El. auto.
+    - unfold removal_task. destruct (Nat.eqb (length (i_layers x)) 1) eqn:E1.
+      + intros H; inversion H; subst. apply Nat.eqb_eq in E1. repeat split; auto.
+      + destruct (t_take_seed seed s) as [s1|]; simpl; [|discriminate].
+        destruct (t_draw _ s1) as [[v s2]|]; simpl; [|discriminate].
+        unfold remove_layers.
+        destruct (negb (0 <? v)) eqn:B1; simpl; [discriminate|].
+        destruct (negb (v <? Z.of_nat (length (i_layers x)))) eqn:B2; simpl; [discriminate|].
+        destruct (make_individual _ _ _) as [y|] eqn:E; simpl; [|discriminate].
+        intros H; inversion H; subst. apply make_individual_spec in E as [A1 [A2 [A3 A4]]].
+        apply negb_false_iff in B1, B2. apply Z.ltb_lt in B1, B2.
+        repeat split; auto. right.
+        set (keep := Z.to_nat (Z.of_nat (length (i_layers x)) - v)) in *.
+        assert (Hk : (0 < keep < length (i_layers x))%nat) by (unfold keep; lia).
+        exists (skipn keep (i_layers x)), (skipn (layer_offset (i_layers x) keep) (i_values x)). repeat split.
+        * intros C. assert (L : length (skipn keep (i_layers x)) = 0%nat) by (rewrite C; reflexivity). rewrite skipn_length in L. lia.
+        * rewrite A3. intros C. assert (L : length (firstn keep (i_layers x)) = 0%nat) by (rewrite C; reflexivity). rewrite firstn_length in L. lia.
+        * rewrite A3. symmetry. apply firstn_skipn.
+        * rewrite A4. symmetry. apply firstn_skipn.
+  Qed.
+
+  (* ---------------------------------------------------------------- the operator *)
+  Lemma submit_all_spec p (xs : list ind) : forall i s subs s',
+    submit_all p i xs s = Ok (subs, s') ->
+    forall j x seed, In (j, x, seed) subs -> (i <= j)%nat /\ nth_error xs (j - i) = Some x.
+  Proof.
+    induction xs as [|x0 t IH]; intros i s subs s'; simpl.
+    - intros H; inversion H; subst. intros ? ? ? [].
+    - destruct (take_random s) as [[r s1]|]; simpl; [|discriminate].
+      destruct (Qle_bool r p).
+      + destruct (take_seed s1) as [[sd s2]|]; simpl; [|discriminate].
+        destruct (submit_all p (S i) t s2) as [[rest s3]|] eqn:E; simpl; [|discriminate].
+        intros H; inversion H; subst. intros j x seed [X|X].
+        * inversion X; subst. split; [lia|]. rewrite Nat.sub_diag. reflexivity.
+        * destruct (IH _ _ _ _ E j x seed X) as [A B]. split; [lia|].
+          replace (j - i)%nat with (S (j - S i)) by lia. exact B.
+      + intros H j x seed X. destruct (IH _ _ _ _ H j x seed X) as [A B]. split; [lia|].
+        replace (j - i)%nat with (S (j - S i)) by lia. exact B.
+  Qed.
+
+  (* per-task seeds are drawn in submission order: the seeds of the submitted tasks are, in order, the values of
+     the randint draws of the consumed stream, and the tasks are in population order *)
+  Fixpoint randints (s : ostream) : list Z :=
+    match s with
+    | [] => []
+    | KRandint _ _ v :: t => v :: randints t
+    | _ :: t => randints t
+    end.
+
+  Lemma submit_all_seeds p (xs : list ind) : forall i s subs s',
+    submit_all p i xs s = Ok (subs, s') ->
+    exists used, s = used ++ s' /\ map snd subs = randints used /\ StronglySorted lt (map (fun t => fst (fst t)) subs)
+                 /\ Forall (fun t => (i <= fst (fst t))%nat) subs.
+  Proof.
+    induction xs as [|x0 t IH]; intros i s subs s'; simpl.
+    - intros H; inversion H; subst. exists []. repeat split; constructor.
+    - unfold take_random. destruct s as [|[| |q| |] s0]; simpl; try discriminate.
+      destruct (Qle_bool 0 q && negb (Qle_bool 1 q))%bool; simpl; [|discriminate].
+      destruct (Qle_bool q p).
+      + unfold take_seed, take_randint. destruct s0 as [|[| | |lo hi v|] s1]; simpl; try discriminate.
+        destruct (_ && _ && _ && _)%bool; simpl; [|discriminate].
+        destruct (submit_all p (S i) t s1) as [[rest s3]|] eqn:E; simpl; [|discriminate].
+        intros H; inversion H; subst. destruct (IH _ _ _ _ E) as [used [A [B [C D]]]].
+        exists (KRandom q :: KRandint lo hi v :: used). subst. repeat split; simpl; try congruence.
+        * constructor; [exact C|]. apply Forall_map. eapply Forall_impl; [|exact D]. intros [[j y] sd] L. simpl in *. lia.
+        * constructor; [simpl; lia|]. eapply Forall_impl; [|exact D]. intros [[j y] sd] L. simpl in *. lia.
+      + intros H. destruct (IH _ _ _ _ H) as [used [A [B [C D]]]]. exists (KRandom q :: used). subst. repeat split; auto.
+        eapply Forall_impl; [|exact D]. intros [[j y] sd] L. simpl in *. lia.
+  Qed.
+
+  Lemma zip_tasks_spec lg k subs : forall tls tasks,
+    zip_tasks veqb zero lg k subs tls = Ok tasks ->
+    Forall2 (fun sb t => exists tl, t = task_result veqb zero lg k sb tl) subs tasks.
+  Proof.
+    induction subs as [|sb st IH]; intros [|tl tlt] tasks; simpl; try discriminate.
+    - intros H; inversion H; constructor.
+    - destruct (zip_tasks veqb zero lg k st tlt) as [rest|] eqn:E; simpl; [|discriminate].
+      intros H; inversion H; subst. constructor; [eexists; reflexivity|]. eapply IH; eauto.
+  Qed.
+
+  Lemma zip_tasks_length lg k subs : forall tls tasks,
+    zip_tasks veqb zero lg k subs tls = Ok tasks -> length tasks = length tls.
+  Proof.
+    induction subs as [|sb st IH]; intros [|tl tlt] tasks; simpl; try discriminate.
+    - intros H; inversion H; reflexivity.
+    - destruct (zip_tasks veqb zero lg k st tlt) eqn:E; simpl; [|discriminate]. intros H; inversion H; subst. simpl. f_equal. eapply IH; eauto.
+  Qed.
+
+  Lemma task_result_contract lg k i x seed tl x' n :
+    individual_is_valid x = true -> task_result veqb zero lg k (i, x, seed) tl = Ok (x', n) -> contract k x x'.
+  Proof.
+    intros Hv. unfold task_result. destruct (negb _); [discriminate|].
+    destruct (run_task veqb zero lg k x seed (t_items tl)) as [[[y m] rest]|] eqn:E; simpl; [|discriminate].
+    destruct rest; [|discriminate]. intros H; inversion H; subst. eapply run_task_contract; eauto.
+  Qed.
+
+  Lemma write_back_spec (R : ind -> ind -> Prop) (orig : list ind) subs : forall cur rs total inds' total',
+    Forall2 R orig cur ->
+    Forall2 (fun sb r => forall x, nth_error orig (fst (fst sb)) = Some x -> R x (fst r)) subs rs ->
+    (forall j x seed, In (j, x, seed) subs -> nth_error orig j = Some x) ->
+    write_back cur subs rs total = Ok (inds', total') -> Forall2 R orig inds'.
+  Proof.
+    induction subs as [|[[j x] seed] st IH]; intros cur rs total inds' total' HF HR Hin; destruct rs as [|[x' n] rt]; simpl; try discriminate.
+    - intros H; inversion H; subst. exact HF.
+    - destruct (set_nth cur j x') as [cur1|] eqn:E; simpl; [|discriminate].
+      inversion HR as [|sb0 r0 st0 rt0 Hhead Htail]; subst.
+      intros H. eapply IH; [| exact Htail | intros; eapply Hin; right; eauto | exact H].
+      assert (Hx : nth_error orig j = Some x) by (apply (Hin j x seed); left; reflexivity).
+      eapply set_nth_Forall2; [exact HF|exact Hx|apply (Hhead x Hx)|exact E].
+  Qed.
+
+  (* C10_mutation_contracts: for EVERY completion order, every individual of the result is either the very
+     individual of the input at that index or what the operator's mutation made of the individual AT THAT INDEX *)
+  Theorem mutation_contracts lg k prob (p : population V) pi s tls cbs p' :
+    Forall (fun x => individual_is_valid x = true) (p_inds p) ->
+    mutation_op veqb zero lg k prob p pi s tls = (cbs, Ok p') ->
+    Forall2 (fun x x' => x' = x \/ contract k x x') (p_inds p) (p_inds p')
+    /\ p_reps p' = p_reps p /\ p_members p' = None /\ p_membership p' = None
+    /\ exists total, cbs = [CbCount total].
+  Proof.
+    intros Hv. unfold mutation_op.
+    destruct (submit_all prob 0 (p_inds p) s) as [[subs s1]|] eqn:Es; simpl; [|intros H; inversion H].
+    destruct s1; simpl; [|intros H; inversion H].
+    destruct (zip_tasks veqb zero lg k subs tls) as [tasks|] eqn:Ez; simpl; [|intros H; inversion H].
+    destruct (exec_run tasks pi) as [done|] eqn:Ee; simpl; [|intros H; inversion H].
+    apply exec_run_aligned in Ee. subst done.
+    destruct (gather tasks) as [rs|] eqn:Eg; simpl; [|intros H; inversion H].
+    destruct (write_back (p_inds p) subs rs 0) as [[inds' total]|] eqn:Ew; simpl; [|intros H; inversion H].
+    intros H; inversion H; subst; simpl. split; [|repeat split; eauto].
+    pose proof (submit_all_spec _ _ _ _ _ _ Es) as Hsub.
+    assert (Hnth : forall j x seed, In (j, x, seed) subs -> nth_error (p_inds p) j = Some x).
+    { intros j x seed X. destruct (Hsub j x seed X) as [_ Y]. rewrite Nat.sub_0_r in Y. exact Y. }
+    eapply write_back_spec; [| |exact Hnth|exact Ew].
+    - clear. induction (p_inds p); constructor; auto.
+    - apply zip_tasks_spec in Ez. unfold gather in Eg. apply mapM_Forall2 in Eg.
+      clear - Ez Eg Hnth Hv. revert rs Eg Hnth. induction Ez as [|[[j x] seed] t st tt [tl Et] _ IH]; intros rs Eg Hnth; inversion Eg; subst; constructor.
+      + intros x0 Hx0. simpl in Hx0. rewrite (Hnth j x seed (or_introl eq_refl)) in Hx0. inversion Hx0; subst x0.
+        right. destruct y as [x' n]. simpl. eapply task_result_contract; [|exact H1].
+        rewrite Forall_forall in Hv. apply Hv. eapply nth_error_In. apply (Hnth j x seed). left; reflexivity.
+      + apply IH; [assumption|]. intros; eapply Hnth; right; eauto.
+  Qed.
+
+  (* the result does not depend on the completion order *)
+  Theorem mutation_order_independent lg k prob (p : population V) pi1 pi2 s tls m :
+    Permutation pi1 (seq 0 m) -> Permutation pi2 (seq 0 m) -> length tls = m ->
+    mutation_op veqb zero lg k prob p pi1 s tls = mutation_op veqb zero lg k prob p pi2 s tls.
+  Proof.
+    intros H1 H2 Hm. unfold mutation_op.
+    destruct (submit_all prob 0 (p_inds p) s) as [[subs s1]|]; simpl; [|reflexivity].
+    destruct s1; simpl; [|reflexivity].
+    destruct (zip_tasks veqb zero lg k subs tls) as [tasks|] eqn:Ez; simpl; [|reflexivity].
+    assert (L : length tasks = m) by (rewrite <- Hm; eapply zip_tasks_length; eauto).
+    rewrite !exec_run_permutation by (rewrite L; assumption). reflexivity.
+  Qed.
+End MutationFacts.
+
+(* the legacy variant (optimize_layer_of_individual without the early return) raises on a layer without parameters:
+   one qubit, layers rotation / identity, last-layer search with probability 1 *)
+Definition legacy_witness : population Z :=
+  mkPop [mkInd 1 [mkLayer 1 [GRot 0]; mkLayer 1 [GId 0]] [7; 8; 9]] None None None.
+Definition legacy_witness_stream : ostream := [KRandom (1 # 2); KRandint 0 SEED_MAX 42].
+Definition legacy_witness_tasks : list (task_log Z) := [mkTask 0 42 []].
+
+Lemma legacy_empty_layer_refuted :
+  pop_valid 1 legacy_witness = true
+  /\ mutation_op Z.eqb 0 true MLastLayer 1 legacy_witness [0%nat] legacy_witness_stream legacy_witness_tasks = ([], Err "ValueError"%string)
+  /\ mutation_op Z.eqb 0 false MLastLayer 1 legacy_witness [0%nat] legacy_witness_stream legacy_witness_tasks
+     = ([CbCount 0], Ok legacy_witness).
+Proof. vm_compute. repeat split. Qed.
+
+(* ------------------------------------------------------------------ validity is preserved by every operator *)
+Section Closure.
+  Context {V : Type} (veqb : V -> V -> bool) (ieq : individual V -> individual V -> bool) (zero : V).
+  Hypothesis ieq_refl : forall x, ieq x x = true.
+  Hypothesis ieq_sym : forall x y, ieq x y = true -> ieq y x = true.
+  Hypothesis ieq_trans : forall x y z, ieq x y = true -> ieq y z = true -> ieq x z = true.
+  Notation ind := (individual V).
+  Variable ev : ind -> result Q.
+  Variable lg : bool.
+
+  Definition good (n : Z) (x : ind) : Prop := individual_is_valid x = true /\ i_qubits x = n.
+
+  Lemma pop_valid_Forall n (p : population V) : pop_valid n p = true <-> Forall (good n) (p_inds p).
+  Proof.
+    unfold pop_valid, good. rewrite forallb_forall, Forall_forall. split; intros H x Hx; specialize (H x Hx).
+    - apply andb_true_iff in H as [A B]. apply Z.eqb_eq in B. auto.
+    - destruct H as [A B]. rewrite A. apply Z.eqb_eq in B. rewrite B. reflexivity.
+  Qed.
+
+  Theorem op_size_valid n o lgs (p : population V) cbs p' :
+    pop_valid n p = true -> run_op veqb ieq zero ev lg o lgs p = (cbs, Ok p') ->
+    pop_valid n p' = true /\ length (p_inds p') = length (p_inds p).
+  Proof.
+    intros Hv. rewrite pop_valid_Forall in *. destruct o as [thr|cfg|k prob]; simpl.
+    - unfold speciation_op. intros H; inversion H as [[Hc Hr]]; clear H.
+      destruct (speciate ieq thr p (g_stream lgs)) as [[[q ext] rest]|] eqn:E; simpl in Hr; [|discriminate].
+      destruct rest; inversion Hr; subst.
+      destruct (speciation_partition ieq ieq_refl ieq_sym ieq_trans _ _ _ _ _ _ E) as [mem [ms [A _]]]. rewrite A. auto.
+    - intros H. destruct (selection_values ieq ev _ _ _ _ _ _ H) as [[_ [e X]]|[values [F S]]]; [discriminate|].
+      destruct (selection_spec ieq _ _ _ _ _ _ (eq_sym (Forall2_length' _ _ _ F)) S) as [_ [A [B _]]].
+      split; [|exact A]. rewrite Forall_forall in *. intros x Hx. apply Hv. apply B. exact Hx.
+    - intros H.
+      assert (Hvv : Forall (fun x => individual_is_valid x = true) (p_inds p)) by (eapply Forall_impl; [|exact Hv]; intros x [A _]; exact A).
+      destruct (mutation_contracts veqb zero lg k prob p _ _ _ _ _ Hvv H) as [F _].
+      split; [|symmetry; eapply Forall2_length'; eauto].
+      clear - F Hv. induction F; [constructor|]. inversion Hv; subst. constructor; [|auto].
+      destruct H as [->|[A [B _]]]; [assumption|]. destruct H2. split; congruence.
+  Qed.
+
+  (* closure under operator sequences: every population produced along the way is valid, of the same size, on the same qubits *)
+  Theorem seq_size_valid n steps : forall (p : population V),
+    pop_valid n p = true ->
+    Forall (fun oc => forall p', snd oc = Ok p' -> pop_valid n p' = true /\ length (p_inds p') = length (p_inds p))
+           (run_seq veqb ieq zero ev lg steps p).
+  Proof.
+    induction steps as [|[o lgs] t IH]; intros p Hv; simpl; [constructor|].
+    destruct (run_op veqb ieq zero ev lg o lgs p) as [cbs r] eqn:E. constructor.
+    - simpl. intros p' Hr. subst r. eapply op_size_valid; eauto.
+    - simpl. destruct r as [p1|]; [|constructor].
+      destruct (op_size_valid _ _ _ _ _ _ Hv E) as [Hv1 Hl1].
+      eapply Forall_impl; [|apply IH; exact Hv1]. intros oc H p' Hp'. destruct (H p' Hp'). split; [assumption|congruence].
+  Qed.
+
+  (* selection and mutation hand on a population WITHOUT species member information ... *)
+  Lemma op_clears_members o lgs (p : population V) cbs p' :
+    run_op veqb ieq zero ev lg o lgs p = (cbs, Ok p') ->
+    match o with OSpeciation _ => p_members p' <> None | _ => p_members p' = None end.
+  Proof.
+    destruct o as [thr|cfg|k prob]; simpl.
+    - unfold speciation_op. intros H; inversion H as [[Hc Hr]]; clear H.
+      destruct (speciate ieq thr p (g_stream lgs)) as [[[q ext] rest]|] eqn:E; simpl in Hr; [|discriminate].
+      destruct rest; inversion Hr; subst.
+      destruct (speciation_partition ieq ieq_refl ieq_sym ieq_trans _ _ _ _ _ _ E) as [mem [ms [_ [A _]]]]. rewrite A. discriminate.
+    - intros H. destruct (selection_values ieq ev _ _ _ _ _ _ H) as [[_ [e X]]|[values [F S]]]; [discriminate|].
+      destruct (selection_spec ieq _ _ _ _ _ _ (eq_sym (Forall2_length' _ _ _ F)) S) as [_ [_ [_ [_ [_ [A _]]]]]]. exact A.
+    - unfold mutation_op. destruct (do sb <- submit_all prob 0 (p_inds p) (g_stream lgs); _) as [[i t]|]; intros H; inversion H; reflexivity.
+  Qed.
+
+  (* ... so a selection that is not directly preceded by a speciation raises: the documented precondition *)
+  Theorem seq_selection_needs_speciation o1 lg1 cfg lg2 rest (p : population V) :
+    (match o1 with OSpeciation _ => False | _ => True end) ->
+    forall ocs, run_seq veqb ieq zero ev lg ((o1, lg1) :: (OSelection cfg, lg2) :: rest) p = ocs ->
+    match ocs with
+    | [oc1] => exists e, snd oc1 = Err e
+    | [oc1; oc2] => exists e, snd oc2 = Err e
+    | _ => False
+    end.
+  Proof.
+    intros Hn ocs <-. simpl. destruct (run_op veqb ieq zero ev lg o1 lg1 p) as [cbs r] eqn:E. simpl.
+    destruct r as [p1|e]; [|eauto].
+    pose proof (op_clears_members _ _ _ _ _ E) as Hm. destruct o1; [contradiction| |];
+      (destruct (selection_needs_speciation ieq ev cfg p1 (g_pi lg2) (g_stream lg2) (or_intror (or_introl Hm))) as [e He];
+       destruct (selection_op ieq ev cfg p1 (g_pi lg2) (g_stream lg2)) as [c2 r2]; simpl in *; subst; eauto).
+  Qed.
+End Closure.
+
+(* ------------------------------------------------------------------ the implementation's `==` is an equivalence *)
+Lemma gate_heq_refl g : gate_heq g g = true.
+Proof. destruct g; simpl; rewrite ?Z.eqb_refl; reflexivity. Qed.
+Lemma gate_heq_sym a b : gate_heq a b = true -> gate_heq b a = true.
+Proof. destruct a, b; simpl; try discriminate; rewrite ?andb_true_iff, ?Z.eqb_eq; intuition congruence. Qed.
+Lemma gate_heq_trans a b c : gate_heq a b = true -> gate_heq b c = true -> gate_heq a c = true.
+Proof. destruct a, b, c; simpl; try discriminate; rewrite ?andb_true_iff, ?Z.eqb_eq; intuition congruence. Qed.
+
+Section ListEq.
+  Context {A : Type} (eqb : A -> A -> bool).
+  Lemma list_eqb_refl : (forall x, eqb x x = true) -> forall l, list_eqb eqb l l = true.
+  Proof. intros H l; induction l; simpl; [reflexivity|]. rewrite H, IHl. reflexivity. Qed.
+  Lemma list_eqb_sym : (forall x y, eqb x y = true -> eqb y x = true) -> forall l m, list_eqb eqb l m = true -> list_eqb eqb m l = true.
+  Proof.
+    intros H l; induction l as [|a l IH]; intros [|b m]; simpl; try discriminate; [reflexivity|].
+    rewrite !andb_true_iff. intros [X Y]. split; [apply H; exact X|apply IH; exact Y].
+  Qed.
+  Lemma list_eqb_trans : (forall x y z, eqb x y = true -> eqb y z = true -> eqb x z = true) ->
+    forall l m n, list_eqb eqb l m = true -> list_eqb eqb m n = true -> list_eqb eqb l n = true.
+  Proof.
+    intros H l; induction l as [|a l IH]; intros [|b m] [|c n]; simpl; try discriminate; [reflexivity|].
+    rewrite !andb_true_iff. intros [X Y] [X2 Y2]. split; [eapply H; eauto|eapply IH; eauto].
+  Qed.
+End ListEq.
+
+Lemma layer_heq_refl l : layer_heq l l = true.
+Proof. unfold layer_heq. rewrite Z.eqb_refl, list_eqb_refl; [reflexivity|apply gate_heq_refl]. Qed.
+Lemma layer_heq_sym a b : layer_heq a b = true -> layer_heq b a = true.
+Proof.
+  unfold layer_heq. rewrite !andb_true_iff, !Z.eqb_eq. intros [X Y]. split; [congruence|].
+  apply list_eqb_sym; [apply gate_heq_sym|exact Y].
+Qed.
+Lemma layer_heq_trans a b c : layer_heq a b = true -> layer_heq b c = true -> layer_heq a c = true.
+Proof.
+  unfold layer_heq. rewrite !andb_true_iff, !Z.eqb_eq. intros [X Y] [X2 Y2]. split; [congruence|].
+  eapply list_eqb_trans; [apply gate_heq_trans|exact Y|exact Y2].
+Qed.
+
+Section Heq.
+  Context {V : Type} (veqb : V -> V -> bool).
+  Hypothesis v_refl : forall x, veqb x x = true.
+  Hypothesis v_sym : forall x y, veqb x y = true -> veqb y x = true.
+  Hypothesis v_trans : forall x y z, veqb x y = true -> veqb y z = true -> veqb x z = true.
+
+  Lemma individual_heq_refl x : individual_heq veqb x x = true.
+  Proof.
+    unfold individual_heq. rewrite Z.eqb_refl, !list_eqb_refl; auto. apply layer_heq_refl.
+  Qed.
+  Lemma individual_heq_sym x y : individual_heq veqb x y = true -> individual_heq veqb y x = true.
+  Proof.
+    unfold individual_heq. rewrite !andb_true_iff, !Z.eqb_eq. intros [[A B] C]. repeat split; [congruence| |].
+    - apply list_eqb_sym; [apply layer_heq_sym|exact B].
+    - apply list_eqb_sym; [apply v_sym|exact C].
+  Qed.
+  Lemma individual_heq_trans x y z : individual_heq veqb x y = true -> individual_heq veqb y z = true -> individual_heq veqb x z = true.
+  Proof.
+    unfold individual_heq. rewrite !andb_true_iff, !Z.eqb_eq. intros [[A B] C] [[A2 B2] C2]. repeat split; [congruence| |].
+    - eapply list_eqb_trans; [apply layer_heq_trans|exact B|exact B2].
+    - eapply list_eqb_trans; [apply v_trans|exact C|exact C2].
+  Qed.
+End Heq.
+
+(* it is strictly coarser than structural equality: two different circuits that compare equal *)
+Lemma heq_identifies_different_individuals :
+  exists a b : individual Z,
+    individual_is_valid a = true /\ individual_is_valid b = true
+    /\ individual_eqb Z.eqb a b = false /\ individual_heq Z.eqb a b = true /\ genetic_distance a b = 1.
+Proof.
+  exists (mkInd 2 [mkLayer 2 [GId 0; GRot 1]] [0; 0; 0]), (mkInd 2 [mkLayer 2 [GRot 0; GId 1]] [0; 0; 0]).
+  vm_compute. repeat split.
 Qed.
